@@ -82,7 +82,7 @@ class SymmetricTTNDO(TreeTensorNetworkState):
             str: The node identifier.
 
         """
-        assert match(r".*"+self.ket_suffix, ket_id), \
+        assert ket_id.endswith(self.ket_suffix), \
             "The given identifier is not a ket identifier!"
         return ket_id[:-len(self.ket_suffix)]
 
@@ -97,7 +97,7 @@ class SymmetricTTNDO(TreeTensorNetworkState):
             str: The node identifier.
 
         """
-        assert match(r".*"+self.bra_suffix, bra_id), \
+        assert bra_id.endswith(self.bra_suffix), \
             "The given identifier is not a bra identifier!"
         return bra_id[:-len(self.bra_suffix)]
 
